@@ -104,6 +104,8 @@ class RefGen:
         self.no_copy = tuple(no_copy)
         self.namedtuple_as_dict = namedtuple_as_dict
         self.static_dataclasses = False
+        self.union_enc_isinstance = False
+        self.union_mode = "strict"
         self.dataclass_call = None  # callable(gen, cls, x, 'to'|'from') -> expression (format / flag aware)
         self.resolve = None  # callable(type, direction) -> registration | None  (customizations)
 
@@ -165,9 +167,9 @@ class RefGen:
                 if inner == x:
                     return x
                 return f"({inner} if {x} is not None else None)"
-            raise Unsupported("union (specified under C11)")
+            return self._dec_union(args, x)
         if o in (typing.Literal, typing_extensions.Literal):
-            raise Unsupported("literal (specified under C11)")
+            return self._dec_literal(t, x)
         if t is NoneType or t is None:
             return "None"
         if t in (int, float, bool, str):
@@ -214,6 +216,141 @@ class RefGen:
             if issubclass(base, (collections.abc.Collection,)):
                 return self._dec_seq(base, args, x)
         raise Unsupported(f"no reference for {t!r}")
+
+    # ---- C11: UNION_DEC / Literal, from the property statement
+    def _flat_members(self, args):
+        out = []
+        for a in args:
+            sa = strip(a)
+            if _origin(sa) in (typing.Union, types.UnionType):
+                out.extend(self._flat_members(_args(sa)))
+            else:
+                out.append(a)
+        seen, res = [], []
+        for a in out:
+            if not any(a is b or a == b for b in seen):
+                seen.append(a)
+                res.append(a)
+        return res
+
+    def _dec_union(self, args, x):
+        """the input unchanged if its exact type is a basic scalar member; a null member matches
+        only null; otherwise the first member in declaration order that accepts; else raise"""
+        members = self._flat_members(args)
+        fn = f"_ref_union{self.n}"
+        self.n += 1
+        lines = [f"def {fn}(value):"]
+        if self.union_mode == "staged":
+            # regression contract of the unchanged tree (NOT the property): members in declaration
+            # order - an exact-type test for a scalar/null member, an attempt for any other member;
+            # then the scalar coercions in declaration order, null member: None
+            for m in members:
+                sm = strip(m)
+                if sm in (int, float, bool, str):
+                    lines += [f"    if type(value) is {sm.__name__}:", "        return value"]
+                elif sm is NoneType or sm is None:
+                    lines += ["    if value is None:", "        return value"]
+                else:
+                    lines += ["    try:", f"        return {self.dec(m, 'value')}", "    except Exception:", "        pass"]
+            for m in members:
+                sm = strip(m)
+                if sm in (int, float, bool, str):
+                    lines += ["    try:", f"        return {sm.__name__}(value)", "    except Exception:", "        pass"]
+                elif sm is NoneType or sm is None:
+                    lines += ["    return None"]
+                    break
+            lines.append("    raise ValueError(value)")
+            self.defs.append("\n".join(lines))
+            return f"{fn}({x})"
+        for m in members:
+            sm = strip(m)
+            if sm in (int, float, bool, str):
+                lines.append(f"    if type(value) is {sm.__name__}:")
+                lines.append("        return value")
+            elif sm is NoneType or sm is None:
+                lines.append("    if value is None:")
+                lines.append("        return None")
+        for m in members:
+            sm = strip(m)
+            if sm is NoneType or sm is None:
+                continue
+            lines.append("    try:")
+            lines.append(f"        return {self.dec(m, 'value')}")
+            lines.append("    except Exception:")
+            lines.append("        pass")
+        lines.append("    raise ValueError(value)")
+        self.defs.append("\n".join(lines))
+        return f"{fn}({x})"
+
+    def _literal_values(self, t):
+        out = []
+        for a in _args(t):
+            if _origin(a) in (typing.Literal, typing_extensions.Literal):
+                out.extend(self._literal_values(a))
+            else:
+                out.append(a)
+        return out
+
+    def _dec_literal(self, t, x):
+        """accepts exactly the listed values (in listing order) and returns the listed constant"""
+        fn = f"_ref_literal{self.n}"
+        self.n += 1
+        lines = [f"def {fn}(value):"]
+        for v in self._literal_values(t):
+            if isinstance(v, enum.Enum):
+                e = self.bind(type(v))
+                lines.append(f"    if value == {e}.{v.name}.value:")
+                lines.append(f"        return {e}.{v.name}")
+            elif isinstance(v, bytes):
+                lines.append("    try:")
+                lines.append(f"        if decodebytes(value.encode()) == {v!r}:")
+                lines.append(f"            return {v!r}")
+                lines.append("    except Exception:")
+                lines.append("        pass")
+            else:
+                lines.append(f"    if value == {v!r}:")
+                lines.append(f"        return {v!r}")
+        lines.append("    raise ValueError(value)")
+        self.defs.append("\n".join(lines))
+        return f"{fn}({x})"
+
+    def _enc_literal(self, t, x):
+        fn = f"_ref_literal_enc{self.n}"
+        self.n += 1
+        lines = [f"def {fn}(value):"]
+        for v in self._literal_values(t):
+            if isinstance(v, enum.Enum):
+                e = self.bind(type(v))
+                lines.append(f"    if value == {e}.{v.name}:")
+                lines.append(f"        return {self.enc(type(v), 'value')}")
+            else:
+                lines.append(f"    if value == {v!r}:")
+                lines.append(f"        return {self.enc(type(v), 'value')}")
+        lines.append("    raise ValueError(value)")
+        self.defs.append("\n".join(lines))
+        return f"{fn}({x})"
+
+    def _enc_union(self, args, x):
+        """picks the member matching the value: exact class for members with a concrete class
+        (scalars unchanged), in declaration order"""
+        members = self._flat_members(args)
+        fn = f"_ref_union_enc{self.n}"
+        self.n += 1
+        lines = [f"def {fn}(value):"]
+        for m in members:
+            sm = strip(m)
+            k = _origin(sm) or sm
+            if sm is NoneType or sm is None:
+                lines.append("    if value is None:")
+                lines.append("        return None")
+                continue
+            if not isinstance(k, type):
+                raise Unsupported(f"union member without a concrete class: {m!r}")
+            lines.append(f"    if isinstance(value, {self.bind(k)}):" if self.union_enc_isinstance else f"    if value.__class__ is {self.bind(k)}:")
+            lines.append(f"        return {self.enc(m, 'value')}")
+        lines.append("    raise ValueError(value)")
+        self.defs.append("\n".join(lines))
+        return f"{fn}({x})"
 
     def _dec_seq(self, base, args, x):
         v = self.var()
@@ -346,9 +483,9 @@ class RefGen:
                 if inner == x:
                     return x
                 return f"({inner} if {x} is not None else None)"
-            raise Unsupported("union (specified under C11)")
+            return self._enc_union(args, x)
         if o in (typing.Literal, typing_extensions.Literal):
-            raise Unsupported("literal (specified under C11)")
+            return self._enc_literal(t, x)
         if t is NoneType or t is None or t in (int, float, bool, str):
             return x
         if isinstance(t, type) and hasattr(t, "_deserialize") and hasattr(t, "_serialize"):
